@@ -9,7 +9,7 @@ use crate::explore::{bfs, par_map, run_op, sweep, Base, Local, Trans};
 use crate::judge::*;
 use crate::ops::{apply, build, Op, P};
 use crate::props::{gen_bases, geoms, history_tree_j, large_bases, repeat_op, sweep_with_extras, with_poison, Guard};
-use crate::refscreen::{compare, fresh, Comp, Model, ALL_COMPS, DECCOLM};
+use crate::refscreen::{compare, Comp, Model, ALL_COMPS, DECCOLM};
 use crate::report::{Collector, Violation};
 use crate::seeds::*;
 use crate::snapshot::{full_key, snap, Cell, Snap, DECSCNM};
@@ -626,8 +626,12 @@ pub fn c15_compare(c: &Collector, t: &Trans, engine: &str, local: &mut Local, co
         }
     };
     local.count("resets");
-    let mut exp = fresh(post.columns, post.lines);
-    exp.saves = post.saves.clone(); // the saved-cursor stack is the one thing RIS leaves alone
+    // the statement is relational: "equal those of a newly constructed screen of the current
+    // dimensions" (what a new screen looks like is stated only for tab stops, C18, and character
+    // sets, C20, and is checked there), "and every row is marked dirty"
+    let mut exp = snap(&Screen::new(post.columns, post.lines));
+    exp.dirty = (0..post.lines).collect();
+    exp.saves = t.pre.saves.clone(); // the saved-cursor stack is the one thing RIS leaves alone
     if (post.lines, post.columns) != (t.pre.lines, t.pre.columns) {
         viol(c, "C15", engine, t, "mismatch:Geometry", format!("reset changed the geometry {}x{} -> {}x{}", t.pre.columns, t.pre.lines, post.columns, post.lines));
         return;
@@ -2185,6 +2189,14 @@ fn rendition_bases(c: &Collector, all: bool) -> Vec<Base> {
     let bgs: [&[u32]; 3] = [&[], &[104], &[48, 2, 1, 2, 3]];
     let flag_codes = [1u32, 3, 4, 5, 7, 9];
     let masks: Vec<u32> = if all { (0..64).collect() } else { vec![0, 63, 0b010101, 0b101010] };
+    // under DECSCNM, SGR 0 means "default + reverse". These two come first so that every family
+    // that takes only the first few base states (pairs, extended forms, long lists, parser path)
+    // folds its lists from a reverse-video state as well.
+    for script in [vec![Op::Sm(vec![5], true)], vec![Op::Sm(vec![5], true), Op::Sgr(vec![27, 1])]] {
+        if let Ok(s) = build(3, 1, &script) {
+            v.push(Base { columns: 3, lines: 1, script, screen: s });
+        }
+    }
     for mask in masks {
         for fg in fgs.iter() {
             for bg in bgs.iter() {
@@ -2204,12 +2216,6 @@ fn rendition_bases(c: &Collector, all: bool) -> Vec<Base> {
                     v.push(Base { columns: 3, lines: 1, script, screen: s });
                 }
             }
-        }
-    }
-    // under DECSCNM, SGR 0 means "default + reverse"
-    for script in [vec![Op::Sm(vec![5], true)], vec![Op::Sm(vec![5], true), Op::Sgr(vec![27, 1])]] {
-        if let Ok(s) = build(3, 1, &script) {
-            v.push(Base { columns: 3, lines: 1, script, screen: s });
         }
     }
     c.count("rendition_bases", v.len() as u64);
@@ -2539,9 +2545,9 @@ pub fn c20(c: &Collector, g: &mut Guard) {
                 for slot in [b'(', b')'] {
                     for shift in [0x0fu8, 0x0e] {
                         let mut pre = vec![0x1b, slot, code, shift];
-                        for b in 0x20..=0xffu32 {
-                            if b == 0x9b || b == 0x9d {
-                                continue; // C1 CSI / OSC introducers in 8-bit mode
+                        for b in 0x00..=0xffu32 {
+                            if b == 0x9b || b == 0x9d || (0x07..=0x0f).contains(&b) || b == 0x1b {
+                                continue; // C1 CSI / OSC introducers in 8-bit mode; C0 controls with a function
                             }
                             let mut s = pre.clone();
                             s.push(b as u8);
